@@ -345,6 +345,9 @@ impl GrammarBuilder {
                 }
 
                 if let Some(ConstVal::String(kind)) = new_production.meta.remove("kind") {
+                    // Production kind ends up in Rust identifiers (enum
+                    // variants, struct and function names).
+                    self.check_identifier(&kind)?;
                     new_production.kind = Some(kind.into());
                 }
 
